@@ -149,9 +149,11 @@ func checkC11(r *evid.Run) {
 			cfgs = append(cfgs, "MC_Pipe_cancel_"+s+".cfg", "MC_Pipe_reader_"+s+".cfg", "MC_Pipe_faults3_"+s+".cfg", "MC_Pipe_cancel3_"+s+".cfg")
 		}
 	}
+	cfgs = append(cfgs, "MC_Pipe_live_text.cfg") // liveness under weak fairness: Termination, NoLeak
 	if !thorough {
 		cfgs = append(cfgs, "MC_Pipe_cancel_enc.cfg", "MC_Pipe_reader_enc.cfg")
 	} else {
+		cfgs = append(cfgs, "MC_Pipe_live_walk.cfg", "MC_Pipe_live_cancel.cfg")
 		cfgs = append(cfgs, "MC_Pipe_faults_text_w3.cfg", "MC_Pipe_faults_mkdir_w3.cfg") // three workers per stage
 	}
 	runPipeModels(r, cfgs, 4, 30*time.Minute)
